@@ -223,6 +223,14 @@ def do_op(op, env):
         m = zone.map_local(ldt)
         z = ldt.in_zone_leniently(zone)
         return [m.count, _ns(z.to_instant()), z.offset.seconds, z.time_of_day.nanosecond_of_day], None
+    if k == "cprov":
+        # ["cprov", id, ns, how]: lookup through a provider over a caller-supplied source (shared by the threads of a run)
+        prov = env.cprov if env is not None and getattr(env, "cprov", None) is not None else _custom_provider()
+        z = prov[op[1]] if op[3] == "getitem" else prov.get_zone_or_none(op[1])
+        if z is None:
+            return None, None
+        zi = z.get_zone_interval(_inst(op[2]))
+        return [z.id, z.get_utc_offset(_inst(op[2])).seconds, zi.name], (("cprov", op[1]), z)
     if k == "plusm":
         # date arithmetic with ordinary and extreme amounts: a call that fails must not leave anything behind
         cal = P.CalendarSystem.for_id(op[1])
@@ -448,6 +456,42 @@ def _thread_ident():
     return _thread.get_ident()
 
 
+_CPROV_IDS = ["Test/Z0", "Test/Z1", "Test/Z2", "Test/Z3", "legacy/Z0", "legacy/Z1", "legacy/Z2", "Alt/Z3"]
+
+
+def _custom_provider():
+    """A DateTimeZoneCache over a caller-supplied source. Some ids are aliases: as the interface allows, the source answers
+    them with a zone that reports the *canonical* id - here deliberately with different rules, so a provider that mixes the
+    two up is visible in the offsets."""
+    import pyoda_time as P
+    from pyoda_time.testing.time_zones import SingleTransitionDateTimeZone
+    from pyoda_time.time_zones import DateTimeZoneCache
+
+    class Source:
+        def __init__(self):
+            self.calls = []
+
+        @property
+        def version_id(self):
+            return "verif-custom-1"
+
+        def get_ids(self):
+            return list(_CPROV_IDS)
+
+        def get_system_default_id(self):
+            return None
+
+        def for_id(self, id_):
+            self.calls.append(id_)
+            n = int(id_[-1])
+            t = P.Instant.from_unix_time_seconds(1_000_000_000 + n * 86400 * 400)
+            if id_.startswith("Test/"):
+                return SingleTransitionDateTimeZone(t, n, n + 1, id_)
+            return SingleTransitionDateTimeZone(t, n + 5, n + 7, "Test/Z%d" % n)
+
+    return DateTimeZoneCache(Source())
+
+
 def _exc_site(e):
     site = None
     for fs in traceback.extract_tb(e.__traceback__):
@@ -619,6 +663,9 @@ def build_pool(master_seed, scale=1.0):
     pool["prov"] += [["tznone", "No/Such_Zone"], ["tznone", "UTC+05"], ["tz", "UTC-03:30"], ["tzids"], ["utc"], ["prov"]]
     for s in (0, 3600, -3600, 19800, 1800, 45900, 64800, -64800, 37, 7):
         pool["prov"].append(["fixed", s])
+    for cid in _CPROV_IDS + ["Test/Nope", "UTC+02"]:
+        for ns in (0, 1_000_000_000 * 10**9 + 3 * 86400 * 400 * 10**9, 2 * 10**18):
+            pool["prov"].append(["cprov", cid, ns, rng.choice(["getitem", "getitem", "none"])])
     for cn in ("fi-FI", "en-US", "da-DK", "fr-FR"):
         for s in (45900, 19800, -12600):
             pool["prov"].append(["fixedcur", cn, s])
@@ -783,7 +830,7 @@ def build_sweep_pairs(pool, master_seed, n_pairs):
         b = rng.choice(bs)
         b = [b[0], a[1], b[2]] if rng.random() < 0.7 else b  # same zone object unless an alias is wanted
         add("zone-cache alias", rng.choice([[], [b], []]), a, b, ["prov", "zones"])
-    first = [o for o in pool["prov"] if o[0] in ("tz", "tznone", "fixed", "fixedcur", "utc")] + [o for o in pool["calid"]]
+    first = [o for o in pool["prov"] if o[0] in ("tz", "tznone", "fixed", "fixedcur", "utc", "cprov")] + [o for o in pool["calid"]]
     for _ in range(per * 2):
         a = rng.choice(first)
         same = [o for o in first if o[0] == a[0] and o[1:2] == a[1:2]]
@@ -1193,6 +1240,12 @@ def execute(spec):
     env.idents = []
     env.op_events = {}
     env.cobj = {}
+    env.cprov = None
+    if any(op[0] == "cprov" for p in spec["threads"] for op in p):
+        try:
+            env.cprov = _custom_provider()
+        except Exception as e:  # noqa: BLE001
+            notes.append(f"custom provider unavailable: {type(e).__name__}")
     _apply_knobs(spec, notes)
     _prewarm(spec)
     rng = random.Random(spec["seed"] ^ 0x5EED)
@@ -1268,13 +1321,13 @@ def execute(spec):
             continue
         for obj, ti, oi in lst[1:]:
             if obj is not first:
-                if ik[0] == "tz" and getattr(first, "id", "").startswith("UTC") and obj == first and type(obj).__name__ == "_FixedDateTimeZone":
+                if ik[0] in ("tz", "cprov") and getattr(first, "id", "").startswith("UTC") and obj == first and type(obj).__name__ == "_FixedDateTimeZone":
                     # fixed-offset ids are served by DateTimeZone.for_offset, which documents "equal, not necessarily the same"
                     probes["fixed_equal_not_same"] = probes.get("fixed_equal_not_same", 0) + 1
                     continue
                 out["verdict"] = "violation"
                 out["signature"] = f"identity {ik[0]}"
-                what = {"tz": "DateTimeZoneProviders.tzdb lookups of one id returned distinct zone objects", "cal": "calendar system obtained twice for one id is not a singleton", "utc": "DateTimeZone.utc returned distinct objects", "prov": "DateTimeZoneProviders.tzdb returned distinct providers"}[ik[0]]  # fmt: skip
+                what = {"cprov": "lookups of one id through a provider over a custom source returned distinct zone objects", "tz": "DateTimeZoneProviders.tzdb lookups of one id returned distinct zone objects", "cal": "calendar system obtained twice for one id is not a singleton", "utc": "DateTimeZone.utc returned distinct objects", "prov": "DateTimeZoneProviders.tzdb returned distinct providers"}[ik[0]]  # fmt: skip
                 out["detail"] = f"{what}: key {list(ik)}, threads {lst[0][1]} and {ti}"
                 return out
     probes["identity_groups"] = len(groups)
